@@ -595,6 +595,47 @@ func mutateConfig(t *rapid.T, base []PoolT) []PoolT {
 	return out
 }
 
+// addReservationStories inserts 0-2 stories at random places of the history: an administrator reserves an IP; its watch event
+// arrives before / after / never relative to the next scheduling (or across a reload); later the reservation is withdrawn, again
+// with the event early or late, and pods are scheduled on.
+func addReservationStories(t *rapid.T, c *Case, reloads bool) {
+	for k, n := 0, rapid.IntRange(0, 2).Draw(t, "nReservationStories"); k < n && len(c.Ops) > 0; k++ {
+		arg := func(k string) Op {
+			return Op{K: k, A: rapid.IntRange(0, 7).Draw(t, "ra9"), B: rapid.IntRange(0, 63).Draw(t, "rb9"), C: rapid.IntRange(0, 7).Draw(t, "rc9")}
+		}
+		reload := func() Op {
+			if reloads {
+				return arg("reload")
+			}
+			return arg("resync")
+		}
+		story := []Op{arg("reserve")}
+		switch rapid.IntRange(0, 3).Draw(t, "addEvent") {
+		case 0:
+			story = append(story, Op{K: "fipevent"}, arg("create"), arg("sched"))
+		case 1:
+			story = append(story, arg("create"), arg("sched"), Op{K: "fipevent"})
+		case 2:
+			story = append(story, arg("create"), arg("sched"), arg("create"), arg("sched"))
+		default:
+			story = append(story, reload(), Op{K: "fipevent"}, arg("create"), arg("sched"))
+		}
+		switch rapid.IntRange(0, 3).Draw(t, "withdraw") {
+		case 0:
+			story = append(story, arg("unreserve"), Op{K: "fipevent"}, Op{K: "fipevent"}, arg("create"), arg("sched"))
+		case 1:
+			story = append(story, arg("unreserve"), arg("create"), arg("sched"), Op{K: "fipevent"}, Op{K: "fipevent"}, arg("sched"))
+		case 2:
+			story = append(story, arg("unreserve"), reload(), arg("create"), arg("sched"))
+		}
+		at := rapid.IntRange(0, len(c.Ops)).Draw(t, "storyAt")
+		if c.FaultAt != nil && c.FaultAt.Op >= at {
+			c.FaultAt.Op += len(story)
+		}
+		c.Ops = append(c.Ops[:at:at], append(story, c.Ops[at:]...)...)
+	}
+}
+
 // uniformInt draws an integer in [0,n) WITHOUT rapid's bias towards small values (rapid's IntRange / SampledFrom put about 40% of
 // the mass on the first tenth of the range, which turns a weighted list of operation kinds into "mostly the first few kinds").
 // It is built from fair coin flips, so it still shrinks (towards 0) and replays like any other draw.
